@@ -322,6 +322,7 @@ func cmdCheck(args []string) int {
 	prop := fs.String("property", "", "property id")
 	tier := fs.String("tier", "quick", "quick|thorough")
 	verif := fs.String("verif", "/verif", "verif directory")
+	nocache := fs.Bool("nocache", false, "do not use the verdict cache")
 	fs.Parse(args)
 	t0 := time.Now()
 	if t := os.Getenv("VERIF_TIER"); t == "quick" || t == "thorough" {
@@ -348,10 +349,43 @@ func cmdCheck(args []string) int {
 			keys = append(keys, k)
 		}
 	}
+	// Modular dependency closure: the proof of a clause rests on the contracts of everything its function calls
+	// (transitively). Those callees are verified here as well: their postconditions are premises of the callers, and in
+	// every function involved the clauses that are assumed after being asserted (invariants, call preconditions,
+	// call-site clauses, frames) and the structural guards are premises of everything else in that function.
+	if !*nocache && os.Getenv("GOVC_NOCACHE") == "" && *tier != "thorough" {
+		e.cache = e.openCache(filepath.Join(*verif, ".cache"))
+	}
+	roots := map[string]bool{}
+	for _, k := range keys {
+		roots[k] = true
+	}
+	callees := e.calleeClosure(keys)
+	var ckeys []string
+	for k := range callees {
+		if !roots[k] {
+			ckeys = append(ckeys, k)
+		}
+	}
+	sort.Strings(ckeys)
+	keys = append(keys, ckeys...)
+	tg := time.Now()
 	all, notes, unsup := e.generate(keys)
+	genSecs := time.Since(tg).Seconds()
+	premiseKind := map[string]bool{"invariant-entry": true, "invariant-preserved": true, "call-pre": true, "atcall": true, "frame": true,
+		"anchor": true, "vacuity": true, "spec-error": true, "unsupported": true, "assert": true, "spawn-pre": true}
 	var obls []*Obligation
 	for _, o := range all {
-		if hasProp(o.Props, *prop) {
+		switch {
+		case hasProp(o.Props, *prop):
+			obls = append(obls, o)
+		case *prop == "C19":
+			// C19 is the safety sweep: it has no functional premises beyond its own obligations
+		case premiseKind[o.Kind] && (roots[o.Func] || callees[o.Func]):
+			o.Props = append(append([]string(nil), o.Props...), *prop)
+			obls = append(obls, o)
+		case o.Kind == "post" && callees[o.Func]:
+			o.Props = append(append([]string(nil), o.Props...), *prop)
 			obls = append(obls, o)
 		}
 	}
@@ -473,7 +507,7 @@ func cmdCheck(args []string) int {
 	os.MkdirAll(filepath.Join(*verif, "evidence"), 0o755)
 	data, _ := json.MarshalIndent(ev, "", " ")
 	os.WriteFile(filepath.Join(*verif, "evidence", *prop+".json"), data, 0o644)
-	fmt.Printf("property %s: %d obligations, %d discharged, %d functions, %.1fs\n", *prop, len(obls), discharged, len(funcs), time.Since(t0).Seconds())
+	fmt.Printf("property %s: %d obligations, %d discharged, %d functions, %.1fs (generation %.1fs, %d quick side queries, %d cache hits)\n", *prop, len(obls), discharged, len(funcs), time.Since(t0).Seconds(), genSecs, e.quickQueries, bySolver["cache"])
 	for _, v := range violations {
 		fmt.Println(v)
 	}
@@ -543,3 +577,51 @@ func writeReplay(e *Engine, o *Obligation, path, repo, verif string, doReplay bo
 }
 
 var _ = ssa.NaiveForm
+
+// calleeClosure: contracts of the functions (transitively) called from the given functions, by static call edges
+// (direct calls, calls of local closures, go/defer statements, closures created inside).
+func (e *Engine) calleeClosure(keys []string) map[string]bool {
+	out := map[string]bool{}
+	var visit func(f *ssa.Function, depth int)
+	seen := map[*ssa.Function]bool{}
+	visit = func(f *ssa.Function, depth int) {
+		if f == nil || seen[f] || f.Blocks == nil {
+			return
+		}
+		seen[f] = true
+		for _, b := range f.Blocks {
+			for _, in := range b.Instrs {
+				var cal *ssa.Function
+				switch x := in.(type) {
+				case ssa.CallInstruction:
+					cal = x.Common().StaticCallee()
+					if cal == nil {
+						cal = localClosureOf(x.Common().Value)
+					}
+				case *ssa.MakeClosure:
+					cal, _ = x.Fn.(*ssa.Function)
+				}
+				if cal == nil {
+					continue
+				}
+				k := e.fnKey(cal)
+				if sp, ok := e.specs[k]; ok {
+					if !out[k] {
+						out[k] = true
+						if !sp.Trusted {
+							visit(cal, depth+1)
+						}
+					}
+				} else if e.inlinable(cal) {
+					visit(cal, depth+1) // contract-less helper: its callees are the caller's callees
+				}
+			}
+		}
+	}
+	for _, k := range keys {
+		if f := e.funcs[k]; f != nil {
+			visit(f, 0)
+		}
+	}
+	return out
+}
